@@ -49,13 +49,52 @@ def event_predicates(ev):
     return bad
 
 
+MASS = {1: 0.0, 2: 0.51099906, 3: 0.51099906, 47: 3727.417}
+
+
+def visible_energy(ev):
+    e = 0.0
+    for p in ev['particles']:
+        m = MASS.get(p['code'], 0.0)
+        p2 = sum(x * x for x in p['p'])
+        e += (p2 + m * m) ** 0.5 - m
+        if p['code'] == 2:
+            e += 1.02199812
+    return e
+
+
+def dbd_configs_for(fn, level):
+    """(isotope, ilevel, mode) triples whose cascade is routine fn at level `level` keV (README daughters, native probing)"""
+    import genbb
+    rd = genbb.readme_dbd()
+    exe = native.build_real()
+    out = []
+    for iso, (daughter, chain) in rd.items():
+        want = (chain.split('+')[1] + 'low') if chain else ((daughter or '') + 'low')
+        if want != fn:
+            continue
+        tasks = ['D %s %d %d 0 1' % (iso, lev, mode) for lev in range(0, 18) for mode in (1, 3, 7, 4, 12, 10)]
+        rc, o, e = native.run_tasks(exe, tasks, 'probe')
+        cur = None
+        for ln in o.split('\n'):
+            if ln.startswith('T D'):
+                f = ln.split()
+                cur = (f[2], int(f[3]), int(f[4]))
+            elif ln.startswith('I ier=0') and cur:
+                m = re.search(r'levelE=(-?\d+)', ln)
+                q = re.search(r'Qbb=(\S+)', ln)
+                if m and int(m.group(1)) == level:
+                    out.append(cur + (float.fromhex(q.group(1)),))
+    return out
+
+
 def replay(prop, meta, rec):
     fn = meta.get('function')
     devs = rec.get('deviates') or []
     if meta.get('segment') not in (None, 0):
         return {'confirmed': False, 'why': 'counterexample starts at an arbitrary state of cut point %s (inductive step); no entry prefix searched' % meta.get('cut')}
-    if meta.get('kind') != 'nuclide':
-        return {'confirmed': False, 'why': 'no native driver for routine kind %s' % meta.get('kind')}
+    if meta.get('kind') not in ('nuclide', 'low'):
+        return {'confirmed': False, 'why': 'no native driver for %s' % (meta.get('kind') or meta.get('what'))}
     # 1. concretise: CBMC chose the deviates drawn in the routine itself; draws inside its callees were abstracted by
     #    their contracts.  Run the natively compiled rendering with the routine's deviates scripted at the routine's own
     #    draw sites and pseudo-random deviates elsewhere; record the complete deviate sequence.
@@ -63,27 +102,52 @@ def replay(prop, meta, rec):
     db = extract.extract()
     rend = native.build_rendered(db)
     exe = native.build_real(ASAN_FLAGS)
-    tasks = ['R %s %s %d %d %s' % (fn, fn, seed, len(devs), fmt(devs)) for seed in range(1, 301)]
-    rc, out, err = native.run_tasks(rend, tasks, 'conc')
-    fulls = [[float(x) for x in m.group(1).split()] for m in re.finditer(r'^U \d+(.*)$', out, re.M)]
-    if not fulls:
-        return {'confirmed': False, 'why': 'could not concretise the callee-internal deviates'}
-    # 2. replay the complete sequences on the real code (ASan/UBSan build of the working tree) until one manifests
+    if meta.get('kind') == 'nuclide':
+        confs = [None]
+    else:
+        lv = rec.get('level')
+        if lv is None:
+            return {'confirmed': False, 'why': 'the counterexample trace carries no level value'}
+        confs = dbd_configs_for(fn, int(lv))[:6]
+        if not confs:
+            return {'confirmed': False, 'why': 'no accepted double-beta configuration reaches %s at level %s keV' % (fn, lv)}
     best = None
-    for k, full in enumerate(fulls):
-        task = 'S %s %d %s' % (fn, len(full), fmt(full))
-        rc, out, err = native.run_tasks(exe, [task], 'replay')
-        res = judge(prop, task, rc, out, err)
-        res['callee_internal_seeds_tried'] = k + 1
-        if best is None:
-            best = res
-        if res.get('confirmed'):
-            return res
-    best['callee_internal_seeds_tried'] = len(fulls)
+    tried = 0
+    for conf in confs:
+        if conf is None:
+            tasks = ['R %s %s %d %d %s' % (fn, fn, seed, len(devs), fmt(devs)) for seed in range(1, 301)]
+        else:
+            tasks = ['Q %s %d %d %s %d %d %s' % (conf[0], conf[1], conf[2], fn, seed, len(devs), fmt(devs)) for seed in range(1, 121)]
+        rc, out, err = native.run_tasks(rend, tasks, 'conc')
+        fulls = [[float(x) for x in m.group(1).split()] for m in re.finditer(r'^U \d+(.*)$', out, re.M)]
+        if not fulls:
+            continue
+        # 2. replay the complete sequences on the real code (ASan/UBSan build of the working tree) until one manifests
+        for k, full in enumerate(fulls):
+            if conf is None:
+                task = 'S %s %d %s' % (fn, len(full), fmt(full))
+            else:
+                task = 'T %s %d %d %d %s' % (conf[0], conf[1], conf[2], len(full), fmt(full))
+            # the real driver must use the same LCG seed as the concretisation run (the initialisation phase draws from it)
+            seed = k + 1
+            task_seeded = task
+            rc, out, err = native.run_tasks(exe, [task_seeded], 'replay', seed=seed)
+            res = judge(prop, task, rc, out, err, conf)
+            tried += 1
+            res['callee_internal_seeds_tried'] = tried
+            if conf is not None:
+                res['configuration'] = {'isotope': conf[0], 'level': conf[1], 'mode': conf[2]}
+            if best is None:
+                best = res
+            if res.get('confirmed'):
+                return res
+    if best is None:
+        return {'confirmed': False, 'why': 'could not concretise the callee-internal deviates'}
+    best['callee_internal_seeds_tried'] = tried
     return best
 
 
-def judge(prop, task, rc, out, err):
+def judge(prop, task, rc, out, err, conf=None):
     res = {'task': task[:2000], 'exit': rc, 'stderr_tail': err[-3000:], 'stdout_tail': out[-1500:]}
     if 'ERROR: AddressSanitizer' in err or 'runtime error' in err:
         res['confirmed'] = prop in ('C08', 'C07')
@@ -96,6 +160,18 @@ def judge(prop, task, rc, out, err):
         bad = event_predicates(evs[0])
         res['predicate_violations'] = bad
         res['confirmed'] = bool(bad)
+        return res
+    if evs and prop == 'C03' and conf is not None:
+        ev = evs[0]
+        vis = visible_energy(ev)
+        res['visible_energy_MeV'] = vis
+        res['Qbb_MeV'] = conf[3]
+        if conf[2] in (1, 2, 3, 7, 17, 18):
+            res['confirmed'] = abs(vis - conf[3]) > 5.0e-3
+        else:
+            res['confirmed'] = vis > conf[3] + 5.0e-3
+        if res['confirmed']:
+            res['predicate_violations'] = ['visible energy %.6f MeV against Q = %.6f MeV (mode %d)' % (vis, conf[3], conf[2])]
         return res
     res['confirmed'] = False
     res['why'] = 'real code ran clean on the counterexample deviates'
